@@ -18,8 +18,27 @@
 #define ST_E RFC1055_SEARCH_FOR_END
 #define ST_N RFC1055_NORMAL
 
+/* Lengths and positions in the harnesses and scripted drivers are 8-bit
+ * (every array here is far shorter than 255 octets): comparisons and index
+ * arithmetic on them cost the solver 8 instead of 64 bits. */
+typedef uint8_t c12_len;
+
+/* The harnesses fill and copy their own arrays with these (constant trip
+ * count, unrolled for free) so that the libc byte-loop models keep the small
+ * unwinding bound the code under test needs (<= 2 octets per call). */
+#define C12_FILL(arr, v)                                                    \
+    do {                                                                    \
+        for (unsigned i_ = 0; i_ < sizeof(arr); ++i_)                       \
+            ((uint8_t *)(arr))[i_] = (v);                                   \
+    } while (0)
+#define C12_COPY(dst, src)                                                  \
+    do {                                                                    \
+        for (unsigned i_ = 0; i_ < sizeof(dst); ++i_)                       \
+            ((uint8_t *)(dst))[i_] = ((const uint8_t *)(src))[i_];          \
+    } while (0)
+
 /* ---- reference encoder: appends the stuffed image of one octet ---------- */
-static size_t ref_stuff(uint8_t *out, size_t at, uint8_t v)
+static c12_len ref_stuff(uint8_t *out, c12_len at, uint8_t v)
 {
     if (v == C_END) {
         out[at++] = C_ESC;
@@ -34,12 +53,12 @@ static size_t ref_stuff(uint8_t *out, size_t at, uint8_t v)
 }
 
 /* appends one frame (RFC 1055 image; leading END in start-of-frame mode) */
-static size_t ref_frame(uint8_t *out, size_t at, const uint8_t *p, size_t n,
-                        size_t nmax, bool sof)
+static c12_len ref_frame(uint8_t *out, c12_len at, const uint8_t *p, c12_len n,
+                         c12_len nmax, bool sof)
 {
     if (sof)
         out[at++] = C_END;
-    for (size_t i = 0; i < nmax; ++i)
+    for (c12_len i = 0; i < nmax; ++i)
         if (i < n)
             at = ref_stuff(out, at, p[i]);
     out[at++] = C_END;
@@ -49,8 +68,8 @@ static size_t ref_frame(uint8_t *out, size_t at, const uint8_t *p, size_t n,
 /* ---- scripted octet source: n octets, then `err` for ever --------------- */
 struct ssrc {
     const uint8_t *data;
-    size_t n;
-    size_t pos;
+    c12_len n;
+    c12_len pos;
     int err;
     bool failed;
 };
@@ -77,9 +96,9 @@ static int ssrc_get(void *drv, void *out)
  * is counted but not stored (the harness asserts it never happens). */
 struct ssink {
     uint8_t *data;
-    size_t phys;
-    size_t cap;
-    size_t n;
+    c12_len phys;
+    c12_len cap;
+    c12_len n;
     int err;
     bool failed;
     bool overflow;
@@ -100,6 +119,28 @@ static int ssink_put(void *drv, unsigned char c)
         s->overflow = true;
     s->n++;
     return 1;
+}
+
+/* the same sink as a chunk driver: all-or-nothing like the library's buffer
+ * sink (a chunk that does not fit is refused as a whole) */
+static ssize_t ssink_put_chunk(void *drv, const void *buf, size_t n)
+{
+    struct ssink *s = drv;
+    const unsigned char *b = buf;
+    if (s->n > s->cap || n > (size_t)(s->cap - s->n)) {
+        s->failed = true;
+        if (c12_first_err == 0)
+            c12_first_err = s->err;
+        return s->err;
+    }
+    for (size_t i = 0; i < n; ++i) {
+        if (s->n < s->phys)
+            s->data[s->n] = b[i];
+        else
+            s->overflow = true;
+        s->n++;
+    }
+    return (ssize_t)n;
 }
 
 /* an error value a driver may return as a genuine, final error: negative,
